@@ -160,6 +160,24 @@ func (x *vc) execBlock(fr *frame, st *state, b *ssa.BasicBlock) bool {
 		switch in := instr.(type) {
 		case *ssa.If:
 			c := x.value(fr, st, in.Cond)
+			if fr.top && x.topFC != nil && len(x.topFC.atifs) > 0 && c.T != "" {
+				if text, ok := fr.exprText[in.Cond]; ok {
+					for _, ai := range x.topFC.atifs {
+						if ai.cond != text {
+							continue
+						}
+						env := x.contractEnv(fr, st, nil)
+						goal := eq(c.T, x.evalBool(env, ai.cl.expr))
+						what := "the condition `" + text + "` is equivalent to: " + ai.cl.text
+						if ai.when != nil {
+							goal = implies(x.evalBool(env, ai.when.expr), goal)
+							what += "   (when " + ai.when.text + ")"
+						}
+						x.oblige(st, "branch", mangle(text)+"."+ai.cl.tag, goal, x.p.pos(in.Pos()), what, false)
+						ai.seen = true
+					}
+				}
+			}
 			fr.blockOut[b.Index] = st
 			fr.edgeCond[[2]int{b.Index, b.Succs[0].Index}] = c.T
 			fr.edgeCond[[2]int{b.Index, b.Succs[1].Index}] = not(c.T)
@@ -204,6 +222,20 @@ func (x *vc) backEdges(fr *frame, st *state, b *ssa.BasicBlock) {
 		}
 		est := st.clone()
 		est.guard = and(st.guard, fr.edgeCond[[2]int{b.Index, s.Index}])
+		// `loop N calls callee#k`: an iteration that comes back to the header has made that call
+		if fr.top && x.topFC != nil {
+			for _, lc := range x.topFC.loopCalls {
+				if lc.loop != li.ordinal {
+					continue
+				}
+				cg, made := x.callGuard[lc.call]
+				if !made {
+					cg = "false"
+				}
+				x.oblige(est, "loop-calls", fmt.Sprintf("loop%d.%s.%s", li.ordinal, mangle(lc.call), lc.tag), cg, x.p.pos(b.Instrs[len(b.Instrs)-1].Pos()), "every iteration of loop "+fmt.Sprint(li.ordinal)+" that continues has executed the call "+lc.call, false)
+				lc.seen = true
+			}
+		}
 		// bind phis to the values flowing along this back edge
 		saved := map[*ssa.Phi]Val{}
 		var k int
@@ -1027,6 +1059,11 @@ func (x *vc) convert(fr *frame, st *state, in *ssa.Convert, pos string) Val {
 		r := x.freshVal("f2i", to, st)
 		tr := app("fp.roundToIntegral RTZ", v.T)
 		lo, hi, _ := intRange(to)
+		if lo == "(- 9223372036854775808)" {
+			// the conversion is a function of its operand: f2i names it (contracts: ifloor(x) = f2i(floor(x)))
+			x.needDecl("(declare-fun f2i (F64) Int)")
+			x.assume("true", eq(r.T, app("f2i", v.T)))
+		}
 		inRange := and(not(app("fp.isNaN", v.T)), not(app("fp.isInfinite", v.T)), app("<=", app("to_real", lo), app("fp.to_real", tr)), app("<=", app("fp.to_real", tr), app("to_real", hi)))
 		x.assume(st.guard, implies(inRange, eq(app("to_real", r.T), app("fp.to_real", tr))))
 		if lo == "(- 9223372036854775808)" {
